@@ -2,7 +2,7 @@
 # usage: mutant_alt.sh <name> <checks...>  - like mutant.sh, but on a scratch worktree (/tmp/repo-alt) so that /repo
 # itself is never touched and other runs can go on; everything is written under /verif/.build-alt
 NAME=$1; shift
-ALT=/tmp/repo-alt
+ALT=/tmp/repo-alt$ALT_TAG      # ALT_TAG=2 etc.: a second scratch worktree and build directory for a parallel batch
 if [ ! -d $ALT ]; then git -C /repo worktree add -q --detach $ALT HEAD || exit 2; fi
 cd $ALT || exit 2
 git checkout -q --detach $(git -C /repo rev-parse HEAD) 2>/dev/null; git checkout -q -- . 
@@ -10,11 +10,11 @@ git apply /verif/seeded/$NAME/patch.diff || { echo "patch does not apply"; exit 
 trap 'cd '$ALT' && git checkout -q -- . ' EXIT
 cd /verif
 for c in "$@"; do
-  out=$(VERIF_REPO=$ALT timeout 2400 ./check $c --tier quick 2>&1); rc=$?
+  out=$(VERIF_REPO=$ALT VERIF_ALT_TAG=$ALT_TAG timeout 2400 ./check $c --tier quick 2>&1); rc=$?
   nv=$(echo "$out" | grep -c "^VIOLATION property=$c")
   first=$(echo "$out" | grep -A1 "^VIOLATION" | sed -n 2p | cut -c1-260)
   if [ $rc -eq 1 ] && [ $nv -gt 0 ]; then echo "DETECTED $NAME by $c ($nv replays) $first";
   elif [ $rc -eq 0 ]; then echo "MISSED   $NAME by $c";
   else echo "TOOLERR  $NAME by $c rc=$rc: $(echo "$out" | tail -3 | cut -c1-300)"; fi
-  mkdir -p /verif/seeded/$NAME/replays && cp /verif/.build-alt/replays/$c-*.json /verif/seeded/$NAME/replays/ 2>/dev/null
+  mkdir -p /verif/seeded/$NAME/replays && cp /verif/.build-alt$ALT_TAG/replays/$c-*.json /verif/seeded/$NAME/replays/ 2>/dev/null
 done
